@@ -220,6 +220,21 @@ class Resolver:
             kws = [(k.arg, T(k.value)) for k in e.keywords]
             if ft[0] == "attr" and ft[1] in (("name", "operator"), ("name", "_operator")) and ft[2] in OPERATOR_MODULE and len(args) == 2 and not kws:
                 return ("op", OPERATOR_MODULE[ft[2]], tuple(args))  # operator.lt(a, b) is a < b
+            if ft[0] == "lambda" and not kws and not any(isinstance(a_, ast.Starred) for a_ in e.args):
+                # a lambda applied to arguments (a strategy handed to an inlined helper): its body with the parameters bound,
+                # when the body mentions nothing but its parameters
+                try:
+                    lam = ast.parse(ft[1], mode="eval").body
+                except SyntaxError:
+                    lam = None
+                if isinstance(lam, ast.Lambda) and not lam.args.vararg and not lam.args.kwarg and not lam.args.kwonlyargs and len(lam.args.args) == len(args) \
+                        and {x.id for x in ast.walk(lam.body) if isinstance(x, ast.Name)} <= {a_.arg for a_ in lam.args.args} \
+                        and not any(isinstance(x, (ast.Lambda, ast.ListComp, ast.GeneratorExp, ast.SetComp, ast.DictComp)) for x in ast.walk(lam.body)):
+                    ce = dict(_compenv or {})
+                    for a_, t_ in zip(lam.args.args, args):
+                        ce[a_.arg] = t_
+                    self._keep.append(lam)
+                    return self._term(lam.body, _visiting, d, ce, None)
             if ft[0] == "opfn" and len(args) == 2 and not kws:
                 return ("op", ft[1], tuple(args))  # `from operator import lt`, or an entry of a module table of such
             if isinstance(f, ast.Name) and not args and not kws:
